@@ -23,7 +23,8 @@ LEVEL_TEXT = ("Each population distribution returned for the workload is compare
 LEVEL_NOTE = ("Trusted: Fraction arithmetic and the literal reading of the specification in vf.oracles.exact.intervene.  Only models "
               "with 1e3*eps*cond <= 1e-4 are judged (others counted too_ill_conditioned).")
 RULE = ("cases: (W, means, variances, do, noise, shift) tuples.  distinct = distinct canonical encoding of the whole case; "
-        "non-trivial = at least one intervention target that has a parent or child, or a non-float64 model array")
+        "non-trivial = at least one intervention target that has a parent or child, or a non-float64 model array"
+        ' Also: intervention dicts in random key order and with numpy-int keys, arguments omitted / {} / None, models in units 1e-12..1e9, int8..float16 model arrays, on the same model object a far and a near-equal (9th digit) parameter set are asked before the judged one, and the judged call is repeated after the caller overwrote an earlier result.')
 ASSUMPTIONS = ["scalar intervention parameters are python int/float (the documented form)",
                "condition-scaled tolerance: 1e3*eps*cond(I-W'^T) relative to the natural scale of the result"]
 EXHAUSTIVE = {"quick": False, "thorough": False}
